@@ -40,10 +40,16 @@ vector<LD> refForward(int method, const vector<double>& th, bool* ovf = nullptr)
     for (size_t i = 0; i + 1 < n; ++i) { p[i] = static_cast<LD>(th[i]) * m; m *= (1.0L - th[i]); }
     p[n - 1] = m;
   } else if (method == 2) {
-    vector<LD> num(n); num[0] = 1; LD den = 1;
-    for (size_t k = 0; k + 1 < n; ++k) { num[k + 1] = num[k] * ((1.0L - th[k]) / static_cast<LD>(th[k])); den += num[k + 1]; }
-    for (size_t i = 0; i < n; ++i) p[i] = num[i] / den;
-    if (ovf) { for (LD x : num) if (x > static_cast<LD>(DBL_MAX)) *ovf = true; if (den > static_cast<LD>(DBL_MAX)) *ovf = true; }
+    // products alpha_1..alpha_k as mant * 2^ex with mant in [1/2,1): 32 ratios of up to 2e323 leave the range of long double too
+    vector<LD> mant(n); vector<long> ex(n); mant[0] = 0.5L; ex[0] = 1;
+    for (size_t k = 0; k + 1 < n; ++k) {
+      int sh = 0; mant[k + 1] = frexpl(mant[k] * ((1.0L - th[k]) / static_cast<LD>(th[k])), &sh); ex[k + 1] = ex[k] + sh;
+    }
+    long top = *max_element(ex.begin(), ex.end());
+    LD den = 0;   // 1 + sum of the products, in units of 2^top (terms 2^-16000 below the largest vanish)
+    for (size_t i = 0; i < n; ++i) den += ldexpl(mant[i], static_cast<int>(std::max(ex[i] - top, -16000L)));
+    for (size_t i = 0; i < n; ++i) p[i] = ldexpl(mant[i] / den, static_cast<int>(std::max(ex[i] - top, -16400L)));
+    if (ovf) *ovf = top > 1024 || ldexpl(den, static_cast<int>(top)) > static_cast<LD>(DBL_MAX);   // a product or their sum beyond DBL_MAX
   } else {
     binRec(n, th, 0, 0, 1.0L, p);
   }
@@ -130,28 +136,74 @@ vector<double> genP(vf::Ctx& c, int n) {
   return p;
 }
 
+// The admissible values of one parameter. The statement quantifies over the OPEN unit cube for both flavours of the constraint
+// (allowNull only closes the interval the parameter carries: ]0,1[ -> [0,1]; the end points themselves are outside the property, and
+// the local-ratio coding divides by theta). In double that is DBL_TRUE_MIN (4.9e-324) <= theta <= 1-2^-53.
+const double TMIN = 4.9406564584124654e-324, TMAX = 1 - DBL_EPSILON / 2;
+
+// a coordinate from the part of (0,1) beyond 1e-9 of a border, down to the smallest positive doubles and up to 1 - ulp
+double genFullCoord(vf::Ctx& c) {
+  double t;
+  switch (c.weighted({3, 2, 2, 1, 1})) {
+    case 0: t = std::pow(10.0, -c.irange(9, 323)) * (1 + c.unit()); break;                       // any decade below 1e-9
+    case 1: switch (c.below(4)) {                                                                 // landmarks of the double format
+        case 0: t = std::ldexp(1.0, -c.irange(30, 1074)); break;                                  //   2^-k, subnormal from k = 1023
+        case 1: t = TMIN * static_cast<double>(1 + c.below(8)); break;                            //   the first subnormals
+        case 2: t = DBL_MIN * (c.flag() ? 1 + c.unit() : 1 - c.unit() / 2); break;                //   around the smallest normal
+        default: t = (1 / DBL_MAX) * (0.25 + 4 * c.unit());                                       //   around 1/DBL_MAX (1/theta overflows below)
+      } break;
+    case 2: t = 1 - (DBL_EPSILON / 2) * static_cast<double>(1 + c.below(16)); break;              // 1 - j ulp
+    case 3: t = 1 - std::ldexp(1.0, -c.irange(30, 53)); break;                                    // 1 - 2^-k
+    default: t = 1 - c.logu(1.2e-16, 1e-9);
+  }
+  if (!(t >= TMIN)) t = TMIN;
+  if (!(t <= TMAX)) t = TMAX;
+  return t;
+}
+
 // one coordinate in (0,1). mode 0 mixed, 1 all close to 0, 2 all close to 1 (exponent e shared by the vector).
+// extreme: the whole admissible range (forward laws); otherwise at least 1e-9 away from the borders.
 double genCoord(vf::Ctx& c, int mode, int e, bool extreme) {
   static const double DY[] = {0.5, 0.25, 0.75, 0.125, 0.375, 0.625, 0.875, 0.0625, 0.9375};
   double t;
   if (mode == 1) t = std::pow(10.0, -e) * (1 + c.unit());
-  else if (mode == 2) t = 1 - std::pow(10.0, -e) * (1 + c.unit());
+  else if (mode == 2) t = 1 - std::pow(10.0, -std::min(e, 16)) * (1 + c.unit());
   else switch (c.weighted({4, 3, 2, 2, 1})) {
     case 0: t = c.pick(DY); break;
     case 1: t = c.real(0.02, 0.98); break;
     case 2: t = c.logu(1e-9, 1e-2); break;
     case 3: t = 1 - c.logu(1e-9, 1e-2); break;
-    default: { double m = extreme ? c.logu(1e-15, 1e-9) : c.logu(1e-9, 1e-6); t = c.flag() ? 1 - m : m; }
+    default:
+      if (extreme && c.weighted({1, 2})) t = genFullCoord(c);
+      else { double m = extreme ? c.logu(1e-15, 1e-9) : c.logu(1e-9, 1e-6); t = c.flag() ? 1 - m : m; }
   }
-  if (!(t > 0)) t = 1e-15;
-  if (!(t < 1)) t = 1 - 1e-15;
+  if (!(t > 0)) t = extreme ? TMIN : 1e-15;
+  if (!(t < 1)) t = extreme ? TMAX : 1 - 1e-15;
   return t;
 }
 struct ThGen { int mode = 0, e = 9; };
 ThGen genThMode(vf::Ctx& c, bool extreme) {
   ThGen g; g.mode = static_cast<int>(c.weighted({10, 1, 1}));
-  if (g.mode) g.e = extreme ? c.irange(3, 15) : c.irange(3, 9);
+  if (g.mode) {
+    g.e = extreme ? c.irange(3, 15) : c.irange(3, 9);
+    if (extreme && c.oneIn(2)) g.e = c.irange(16, 323);   // every decade down to the subnormals (close to 1: capped at 1 - ulp)
+  }
   return g;
+}
+
+// Residue of the repaired finding C19-local-overflow: Simplex::fireParameterChanged (local ratio) rescales the running product of the
+// ratios alpha_k = (1-theta_k)/theta_k only AFTER it exceeded 1e100, so one more ratio can still carry it beyond DBL_MAX (needs
+// alpha_k > 1.8e208, i.e. a parameter below 5.6e-209; a subnormal parameter below 1/DBL_MAX does it alone). The margins make the
+// predicate err towards exclusion when the product is within rounding of one of the two thresholds.
+bool localStepOverflow(const vector<double>& th) {
+  LD r = 1;
+  for (double t : th) {
+    LD al = (1.0L - t) / static_cast<LD>(t);
+    r *= al;
+    if (std::max(al, r) > static_cast<LD>(DBL_MAX) * (1 - 1e-9L)) return true;
+    if (r > 1e100L * (1 + 1e-9L)) r = 1;
+  }
+  return false;
 }
 
 bool nearEdge(const vector<double>& th) { for (double t : th) if (t < 1e-6 || t > 1 - 1e-6) return true; return false; }
@@ -198,6 +250,7 @@ void checkForward(vf::Ctx& c, const vector<double>& got, int method, const vecto
   CHECK(got.size() == n, where << ": getFrequencies() has " << got.size() << " entries, dimension " << n);
   bool ovf = false; vector<LD> ref = refForward(method, th, &ovf);
   if (ovf) c.excludeIfKnown("C19-local-overflow");
+  if (method == 2 && localStepOverflow(th)) c.excludeIfKnown("C19-local-overflow-step");
   LD sum = 0;
   for (size_t i = 0; i < n; ++i) {
     CHECK(got[i] >= 0, where << ": prob(" << i << ") = " << vf::dec(got[i]) << " is not a non-negative number; theta " << showV(th));
@@ -465,6 +518,136 @@ LAW(J_separation, RC, 10000, 400000, 120, "n not a power of two with the binary 
   CHECK(vf::auditOffences() == 0, "run-time monitor: " << vf::auditFirst());
 }
 
+// ------------------------------------------------------------------ (J) injectivity over the whole admissible range
+// Parameters anywhere in [DBL_TRUE_MIN, 1-2^-53]; everything is compared RELATIVELY, per coordinate, on the side of the border the
+// parameter is close to (theta when theta <= 1/2, 1-theta -- an exact double there -- otherwise).
+//
+// Coordinate k splits a mass into two branches, theta_k = up_k/(up_k+down_k):
+//   global ratio: up = p_k, down = p_{k+1}+...+p_n;  local ratio: up = p_k, down = p_{k+1};  binary: the two halves of its group.
+// up, down are sums of probabilities; when the library returns every probability with relative error <= d, both sums and hence
+// theta_k AND 1-theta_k come back (documented inverse formula, evaluated here in long double) with relative error <= 2d/(1-d).
+// d from the forward formulae (u = 2^-53, theta exact, fl(1-theta) one rounding):
+//   global ratio: at most n-1 factors fl(1-theta_j) and n-1 products                                  d <= 2n u     -> 2d <= 2n eps
+//   local ratio : alpha_k two roundings, running product, <= n-1 rescalings, the sum of n positive
+//                 terms (carrying the same) and the final division                                   d <= 9n u     -> 2d <= 9n eps
+//   binary      : at most ceil(log2 n) <= 6 factors, each possibly fl(1-theta)                        d <= 12 u     -> 2d <= 12 eps
+// asserted with the slack below (4n, 16n, 32 eps). Products only shrink (the local ratio is normalised by a sum >= 1), so a
+// probability is touched by underflow only when its own value is below DBL_MIN: a coordinate is judged only when the reference
+// value of both its branches is >= 1e-290 (the library legitimately returns 0 / subnormals below that, nothing is asserted there).
+namespace {
+struct Branch { LD up, down; };
+vector<Branch> refBranches(int method, const vector<LD>& p) {
+  size_t n = p.size(); vector<Branch> b(n - 1);
+  for (size_t i = 1; i < n; ++i) {   // parameter theta_i, 1-based
+    LD up = 0, down = 0;
+    if (method == 1) { up = p[i - 1]; for (size_t j = n; j-- > i;) down += p[j]; }
+    else if (method == 2) { up = p[i - 1]; down = p[i]; }
+    else {
+      unsigned bl = bitLen(i); size_t mod = size_t(1) << bl, low = i - (mod >> 1);
+      for (size_t j = 0; j < n; ++j) { if (j % mod == i) up += p[j]; if (j % mod == low) down += p[j]; }
+    }
+    b[i - 1] = Branch{up, down};
+  }
+  return b;
+}
+double relTolJ(int method, int n) { return (method == 1 ? 4.0 * n : method == 2 ? 16.0 * n : 32.0) * EPS; }
+const LD RESOLVED = 1e-290L;
+
+// b = a moved by `f` on the side of the border it is close to; always inside [TMIN, TMAX]
+double scaleSmallSide(double a, double f) {
+  double b = a <= 0.5 ? a * f : 1 - (1 - a) * f;
+  if (!(b >= TMIN && b <= TMAX)) b = a <= 0.5 ? a / f : 1 - (1 - a) / f;
+  return b;
+}
+double stepUlps(double a, uint64_t s, bool up) {
+  uint64_t bits; memcpy(&bits, &a, sizeof bits);
+  if (up) bits += s; else bits = bits > s ? bits - s : 0;
+  double b; memcpy(&b, &bits, sizeof b);
+  return b;
+}
+}  // namespace
+
+LAW(J_full_range, RC, 14000, 600000, 240, "a coordinate closer than 1e-9 to 0 or 1 is judged by the inverse formula, or is the one a resolved pair differs in", 120) {
+  Cfg g = genCfg(c, 2);
+  size_t m = static_cast<size_t>(g.n - 1);
+  unsigned short M = static_cast<unsigned short>(g.method);
+  // ---- the parameter vector: one / some / all coordinates from the full range, the others ordinary
+  vector<double> a(m);
+  int pat = static_cast<int>(c.weighted({4, 3, 2}));
+  size_t k0 = c.below(m);
+  for (size_t k = 0; k < m; ++k) {
+    bool full = pat == 2 || (pat == 0 ? k == k0 : c.flag());
+    a[k] = full ? genFullCoord(c) : genCoord(c, 0, 9, false);
+  }
+  int route = static_cast<int>(c.below(4));
+  c.desc << showCfg(g) << " theta " << showV(a) << " via " << ROUTE[route];
+  for (double t : a) CHECK(t >= TMIN && t <= TMAX, "internal: generated theta outside (0,1)");
+  Simplex s(static_cast<size_t>(g.n), M, g.allowNull, g.prefix);
+  applyTheta(c, s, g.prefix, a, allIdx(m), route);
+  auditParams(s, g, g.prefix, "after update");
+  vector<double> now = readTheta(s);
+  for (size_t k = 0; k < m; ++k) CHECK(vf::sameBits(now[k], a[k]), "theta" << k + 1 << " holds " << vf::dec(now[k]) << " after setting " << vf::dec(a[k]));
+  vector<double> pa = s.getFrequencies();
+  checkForward(c, pa, g.method, a, "after update");   // a probability vector, each entry relative to the documented formula (known overflow excluded here)
+  // ---- left inverse by the documented formula, relative per coordinate
+  vector<LD> refA = refForward(g.method, a);
+  vector<Branch> want = refBranches(g.method, refA), got = refBranches(g.method, toLD(pa));
+  double tolRel = relTolJ(g.method, g.n);
+  bool judgedEdge = false; size_t unresolved = 0;
+  for (size_t k = 0; k < m; ++k) {
+    if (want[k].up < RESOLVED || want[k].down < RESOLVED) { ++unresolved; continue; }
+    bool low = a[k] <= 0.5;
+    LD target = low ? static_cast<LD>(a[k]) : static_cast<LD>(1 - a[k]);     // 1 - a[k] is exact for a[k] >= 1/2
+    LD back = (low ? got[k].up : got[k].down) / (got[k].up + got[k].down);
+    LD err = fabsl(back - target) / target;
+    c.observe(string("full_left_inverse_rel_err_over_tol_m") + to_string(g.method), static_cast<double>(err / tolRel));
+    CHECK(err <= tolRel, (low ? "theta" : "1-theta") << k + 1 << " = " << vf::dec(static_cast<double>(target)) << " comes back as " << vf::dec(static_cast<double>(back))
+          << " from the returned probabilities " << showV(pa) << " by the documented inverse (relative error " << static_cast<double>(err) << " > " << tolRel << "); method " << g.method << " theta " << showV(a));
+    if (a[k] < 1e-9 || a[k] > 1 - 1e-9) judgedEdge = true;
+  }
+  if (unresolved) c.label("coordinates_below_underflow");
+  // ---- a second vector differing in one coordinate: by a factor, a relative step, a number of ulps, or anywhere in the range
+  size_t k = (pat == 0 && !c.oneIn(4)) ? k0 : c.below(m);
+  vector<double> b = a;
+  int kind = static_cast<int>(c.weighted({3, 3, 3, 1}));
+  ostringstream how;
+  if (kind == 0) { static const double F[] = {3, 2, 10, 0.5, 1.5, 1e3, 1.0009765625}; double f = c.pick(F); b[k] = scaleSmallSide(a[k], f); how << "factor " << f; }
+  else if (kind == 1) { double r = std::pow(10.0, -c.irange(3, 13)) * (1 + c.unit()); b[k] = scaleSmallSide(a[k], 1 + r); how << "relative step " << r; }
+  else if (kind == 2) { int j = c.irange(6, 44); b[k] = stepUlps(a[k], uint64_t(1) << j, c.flag()); how << "2^" << j << " ulps"; }
+  else { b[k] = genFullCoord(c); how << "redrawn"; }
+  if (!(b[k] >= TMIN && b[k] <= TMAX) || b[k] == a[k]) {   // fell off the range or rounded back: halve / double on the small side
+    double sm = a[k] <= 0.5 ? a[k] : 1 - a[k], sm2 = sm < 0.25 ? sm * 2 : sm / 2;
+    b[k] = a[k] <= 0.5 ? sm2 : 1 - sm2; how << " (replaced: doubled/halved)";
+  }
+  CHECK(b[k] >= TMIN && b[k] <= TMAX && b[k] != a[k], "internal: pair generator gave " << vf::dec(b[k]) << " for " << vf::dec(a[k]));
+  bool sameObject = c.flag();
+  c.desc << "; vs theta" << k + 1 << " = " << vf::dec(b[k]) << " [" << how.str() << (sameObject ? ", same object]" : ", second object]");
+  if (g.method == 2 && localStepOverflow(b)) c.excludeIfKnown("C19-local-overflow-step");
+  vector<double> pb;
+  Simplex t(static_cast<size_t>(g.n), M, g.allowNull, g.prefix);
+  if (sameObject) { s.setParameterValue(thName(k + 1), b[k]); pb = s.getFrequencies(); }
+  else { applyTheta(c, t, g.prefix, b, allIdx(m), 1 + static_cast<int>(c.below(3))); pb = t.getFrequencies(); }
+  checkForward(c, pb, g.method, b, "second vector");
+  vector<LD> refB = refForward(g.method, b);
+  LD R = 0; size_t at = 0;   // the probability the documented formula separates best, among those clear of underflow in both
+  for (size_t i = 0; i < refA.size(); ++i) {
+    if (refA[i] < RESOLVED || refB[i] < RESOLVED) continue;
+    LD r = fabsl(refA[i] - refB[i]) / std::max(refA[i], refB[i]);
+    if (r > R) { R = r; at = i; }
+  }
+  bool pairResolved = R >= 4 * static_cast<LD>(tolRel);   // the two images are further apart than the rounding of either (<= tolRel/2 each)
+  if (pairResolved) {
+    LD D = fabsl(static_cast<LD>(pa[at]) - static_cast<LD>(pb[at])) / std::max<LD>(pa[at], pb[at]);
+    c.observe("full_pair_expected_over_observed_separation", static_cast<double>(R / std::max<LD>(D, 1e-300L)));
+    CHECK(pa[at] != pb[at], "parameter vectors differing in theta" << k + 1 << " (" << vf::dec(a[k]) << " vs " << vf::dec(b[k]) << ") give the same prob(" << at << ") = " << vf::dec(pa[at])
+          << ", the documented formula gives " << vf::dec(static_cast<double>(refA[at])) << " vs " << vf::dec(static_cast<double>(refB[at])) << "; method " << g.method << " theta " << showV(a));
+    CHECK(D >= R / 2, "parameter vectors differing in theta" << k + 1 << " (" << vf::dec(a[k]) << " vs " << vf::dec(b[k]) << "): prob(" << at << ") = " << vf::dec(pa[at]) << " vs " << vf::dec(pb[at])
+          << " differ relatively by " << static_cast<double>(D) << ", the documented formula separates them by " << static_cast<double>(R) << "; method " << g.method << " theta " << showV(a));
+  } else c.label("pair_not_resolved");
+  c.nt(judgedEdge || (pairResolved && (a[k] < 1e-9 || a[k] > 1 - 1e-9)));
+  CHECK(vf::auditOffences() == 0, "run-time monitor: " << vf::auditFirst());
+}
+
 // ------------------------------------------------------------------ (C) copy independence
 LAW(C_copy, RC, 12000, 500000, 400, "n >= 2 (there is a parameter to change)", 120) {   // 120 s per-case watchdog: a loaded machine stalled unfinished cases past the default 30 s
   Cfg g = genCfg(c);
@@ -601,6 +784,7 @@ LAW(O_ordered, RC, 18000, 700000, 500, "n not a power of two with the binary cod
       edge |= nearEdge(th);
       bool ovf = false; vector<LD> pref = refForward(g.method, th, &ovf);
       if (ovf) c.excludeIfKnown("C19-local-overflow");
+      if (g.method == 2 && localStepOverflow(th)) c.excludeIfKnown("C19-local-overflow-step");
       vector<LD> vref = refOrdered(pref);
       const vector<double>& got = os.getFrequencies();
       checkOrderedShape(c, got, n, "after parameter update");
